@@ -7,7 +7,7 @@
     it was is refuted in Refuted/R_C17.v. *)
 From Coq Require Import ZArith List Bool.
 From CV Require Import Lib.Sx Lib.ListZ Model.M_gzipframe Model.M_negotiate
-     Proof.P_gzipframe Proof.P_negotiate Proof.P_negotiate_cs.
+     Proof.P_gzipframe Proof.P_negotiate Proof.P_negotiate_cs Proof.P_negotiate_scale.
 Import ListNotations.
 Open Scope Z_scope.
 
@@ -97,6 +97,15 @@ Print Assumptions c17_charset.
 (* Not covered by a theorem (differential check and oracle only): a forced
    tools.encode.encoding; streamed bodies (known finding charset:stream-unencodable,
    witness c17_stream_refuted); the bytes produced by the codecs themselves. *)
+
+(** The gzip decision depends on the weights only through comparisons: one positive
+    factor applied to every qvalue of the header changes nothing.  (This is why the
+    correspondence check may hand qvalues over in any fixed-point scale - millionths -
+    and so reach weights such as 0.0004.) *)
+Theorem c17_gzip_scale_free : forall k, 0 < k -> forall rep falsy cached ae ctv mts,
+  gzip_tool rep falsy cached (option_map (map (scale k)) ae) ctv mts = gzip_tool rep falsy cached ae ctv mts.
+Proof. exact gzip_tool_scale. Qed.
+Print Assumptions c17_gzip_scale_free.
 
 (** Non-vacuity. *)
 Example c17_gzip_nonvacuous :
